@@ -17,7 +17,7 @@ def run(tier, seed, replay=None):
         raise vlib.Infra("model of the pinned escaping pipeline is no longer refuted")
     shutil.rmtree(p.workdir, ignore_errors=True)
     rep = vlib.run_harness(binary, ["c20", "-cases", os.path.join(r.workdir, "c20_cases.ndjson")], timeout=7000)
-    if rep.get("extra", {}).get("read_error") or rep["inconclusive"]:
+    if rep.get("extra", {}).get("read_error") or (rep["inconclusive"] and not rep["divergences"]):
         raise vlib.Infra("c20 harness: %s" % rep.get("extra"))
     ck.add_report(rep)
     ck.cov["rule"] = ("one case per TLC state; URL cases are concretised with EVERY combination of the members of the path's character classes (all ASCII members "
